@@ -296,7 +296,15 @@ def gen_plan(run_seed: int, k: int, tier: str) -> dict:
             elif r < 0.43:
                 ops.append({"op": "purge"})
             elif r < 0.45 and mine:
-                ops.append({"op": "drop", "t": mine.pop(rng.randrange(len(mine)))})
+                # half of the drops really free the object (finalizers, weak references and
+                # whatever it owned go with it); the others keep its husk for a later `reuse`
+                ops.append({"op": "drop", "t": mine.pop(rng.randrange(len(mine))), "husk": rng.random() < 0.5})
+            elif r < 0.47:
+                # FLOOD: many distinct inputs through one object, results ignored -- whatever is
+                # bounded (an LRU of results, of compiled patterns, of positions) gets evicted
+                t = rng.choice(avail)
+                rule, text = rng.choice(gsel[objects[t]["g"]]["calls"])
+                ops.append({"op": "flood", "t": t, "rule": rule, "text": text[:12], "n": rng.choice((40, 150, 300))})
             else:
                 ops.append(parse_op(rng.choice(avail)))
                 if rng.random() < 0.2:
@@ -673,6 +681,13 @@ def execute_plan(plan) -> dict:
                 rec["obs"] = None
             else:
                 rec["obs"] = reduce_raw(raw)
+        elif kind == "flood":
+            t = objs.get(op["t"])
+            if t is None:
+                rec["status"] = "skipped"
+                return rec
+            for i in range(op["n"]):
+                call_raw(t["obj"], op["rule"], f"{op['text']}{i}", 0)
         elif kind == "reads":
             t = objs.get(op["t"])
             if t is None or t["kind"] != "parser":
@@ -1404,6 +1419,8 @@ class Check:
                 return f"{op['t']}.parse({op['rule']!r}, {op['text'][:40]!r}{'...' if len(op['text']) > 40 else ''}{', start_pos=%d' % op['pos'] if op.get('pos') else ''}){' [result read at the end of the phase]' if op.get('defer') else ''}"
             if k in ("drop", "reads"):
                 return f"{k}({op['t']})"
+            if k == "flood":
+                return f"flood({op['t']}.parse({op['rule']!r}, {op['text']!r}+i) for i<{op['n']})"
             return k
 
         if plan.get("phases"):
